@@ -205,7 +205,8 @@ pub open spec fn queue_processed<ExecC, QueryC>(router: &dyn CosmosRouter<ExecC,
 //@   loop 0 ensures [C14.pq.loop_exit] unbonding_queue@.len() == 0 || !pq_due(unbonding_queue@[0], block.time)
 //@   loop 0 decreases unbonding_queue@.len()
 //@   after "re:^\\s*let mut staking_storage = prefixed\\(storage, NAMESPACE_STAKING\\);\\s*$@@0" let ghost s_it = staking_storage.base_view(); let ghost q_it = unbonding_queue@; proof { axiom_addr_key_laws(); lemma_splice_same(s_it, lp(ns_staking())); }
-//@   after "re:^\\s*\\} = unbonding_queue\\.pop_front\\(\\)\\.unwrap\\(\\);\\s*$" let ghost u = q_it[0]; let ghost w_a = staking_storage.view(); proof { assert(unbonding_queue@ =~= q_it.drop_first()); assert(u.delegator == delegator && u.validator == validator && u.amount == amount); assert(pq_due(u, block.time)); }
+//@   after "re:^\\s*\\} = unbonding_queue\\.pop_front\\(\\)\\.unwrap\\(\\);\\s*$" let ghost u = q_it[0]; let ghost w_a = staking_storage.view(); proof { assert(unbonding_queue@ =~= q_it.drop_first()); assert(u.delegator == delegator && u.validator == validator && u.amount == amount); }
+//@   after "re:^\\s*\\} = unbonding_queue\\.pop_front\\(\\)\\.unwrap\\(\\);\\s*$" proof { assert( /*VXCLAUSE C14.pq.only_due*/ (pq_due(u, block.time))); }
 //@   before "re:^\\s*validator_info\\.stakers\\.remove\\(&delegator\\);\\s*$" let ghost vi0 = validator_info; proof { assert(get_vinfo(w_a, validator@) == Ok::<Option<ValidatorInfo>, StdError>(Some(vi0))); }
 //@   after "re:^\\s*\\)\\?;\\s*$@@0" proof { axiom_cw_roundtrip(validator_info); assert(validator_info.stakers@ == vi0.stakers@.remove(delegator)); assert(get_vinfo(staking_storage.view(), validator@) == Ok::<Option<ValidatorInfo>, StdError>(Some(validator_info))); }
 //@   before "re:^\\s*let staking_info = Self::get_staking_info\\(&staking_storage\\)\\?;\\s*$" let ghost w1 = staking_storage.view(); proof { let d = u.delegator; let v = u.validator@; lemma_keys_disjoint(d, v, v); let ks = k_stake(d, v); if w_a.contains_key(ks) && !w1.contains_key(ks) { assert(has_shares(w_a, d, v)); assert(has_staker(w_a, v, d)); assert(frame2(w_a, w1, d, v)); assert(get_vinfo(w_a, v) matches Ok(Some(_))); assert(w1.contains_key(k_vinfo(v))); assert(get_vinfo(w1, v) matches Ok(Some(_))); assert((get_vinfo(w1, v)->Ok_0->0).stakers@ == (get_vinfo(w_a, v)->Ok_0->0).stakers@.remove(d)); lemma_frame2_swf(w_a, w1, d, v); } else { assert(w1 =~= w_a); } assert(pq_cleaned(w_a, w1, u)); }
